@@ -6,6 +6,7 @@ import (
 	"context"
 	"fmt"
 	"os"
+	"runtime"
 	"strings"
 	"testing"
 	"testing/synctest"
@@ -49,6 +50,11 @@ func c14Versions(kind string, now time.Time) []*alert.Alert {
 		return []*alert.Alert{
 			vAlert("A", "1", "1", start, now.Add(5*time.Minute), now.Add(-2*ms), true),
 			vAlert("A", "1", "2", start, now.Add(-1*ms), now.Add(-1*ms), false),
+		}
+	case "resolveB": // as "resolve", for an alert whose fingerprint has different residues modulo 8 and modulo 2 (6 and 0)
+		return []*alert.Alert{
+			vAlert("B", "1", "1", start, now.Add(5*time.Minute), now.Add(-2*ms), true),
+			vAlert("B", "1", "2", start, now.Add(-1*ms), now.Add(-1*ms), false),
 		}
 	case "two": // two alerts of the same group, interleaved updates: A1 B1 A2 B2 (B chosen so that its fingerprint parity differs from A's)
 		bname := "B"
@@ -109,6 +115,9 @@ func c14Exec(t *testing.T, p c14Part, prefix []int, expect []string, trace bool)
 		s := sched.New(prefix, expect)
 		s.Trace = trace
 		var f *vFixture
+		if strings.HasPrefix(p.kind, "procs-") {
+			defer runtime.GOMAXPROCS(runtime.GOMAXPROCS(16))
+		}
 		s.Do(func() { f = newVFixture(p.conc, time.Hour) })
 		var vs []*alert.Alert
 		var done chan struct{}
@@ -141,6 +150,13 @@ func c14Exec(t *testing.T, p c14Part, prefix []int, expect []string, trace bool)
 			if !gone {
 				baseKind = p.kind
 			}
+			// "procs-<kind>": the number of processors the runtime may use drops between the first and the second
+			// submission (the Go runtime follows a changed container CPU limit): which worker handles an alert must
+			// not depend on anything that can change while the dispatcher runs.
+			procs := false
+			if k, ok := strings.CutPrefix(p.kind, "procs-"); ok {
+				baseKind, procs = k, true
+			}
 			vs = c14Versions(baseKind, time.Now())
 			ctxFor := func(i int) context.Context {
 				if gone && i > 0 {
@@ -172,6 +188,9 @@ func c14Exec(t *testing.T, p c14Part, prefix []int, expect []string, trace bool)
 						return
 					}
 					for i, v := range vs {
+						if procs && i == len(vs)-1 { // before the last submission
+							runtime.GOMAXPROCS(2)
+						}
 						if err := f.alerts.Put(ctxFor(i), v); err != nil && gone {
 							goneRefused = true
 						}
@@ -284,7 +303,8 @@ func TestVerifC14(t *testing.T) {
 		jobs = append(jobs, job{c14Part{"refresh3", 0}, 3, 0}, job{c14Part{"refresh", 4}, 3, 0}, job{c14Part{"resolve", 4}, 3, 0}, job{c14Part{"two", 0}, 3, 0}, job{c14Part{"two", 4}, 2, 0}, job{c14Part{"backlog", 0}, 2, 0},
 			job{c14Part{"pre-resolve", 0}, -1, 3}, job{c14Part{"pre-refresh3", 0}, -1, 3}, job{c14Part{"pre-refire", 1}, -1, 3},
 			job{c14Part{"batch-resolve", 0}, -1, 0}, job{c14Part{"batch-refresh", 1}, -1, 0}, job{c14Part{"batch-resolve", 4}, 3, 0}, job{c14Part{"writers2", 0}, -1, 0}, job{c14Part{"writers2", 1}, 3, 0},
-			job{c14Part{"gone-resolve", 0}, -1, 0}, job{c14Part{"gone-refire", 1}, -1, 0}, job{c14Part{"gone-refresh3", 0}, 3, 0})
+			job{c14Part{"gone-resolve", 0}, -1, 0}, job{c14Part{"gone-refire", 1}, -1, 0}, job{c14Part{"gone-refresh3", 0}, 3, 0},
+			job{c14Part{"procs-resolveB", 8}, 3, 0})
 	} else {
 		for _, k := range []string{"refresh", "resolve", "refire"} {
 			jobs = append(jobs, job{c14Part{k, 0}, 2, 0}, job{c14Part{k, 1}, 2, 0})
@@ -292,7 +312,7 @@ func TestVerifC14(t *testing.T) {
 		jobs = append(jobs, job{c14Part{"refresh3", 0}, 1, 0}, job{c14Part{"refresh", 4}, 2, 0}, job{c14Part{"two", 0}, 2, 0}, job{c14Part{"backlog", 0}, 1, 0},
 			job{c14Part{"pre-resolve", 0}, -1, 2}, job{c14Part{"pre-refresh3", 1}, -1, 2},
 			job{c14Part{"batch-resolve", 0}, 2, 0}, job{c14Part{"batch-refresh", 1}, 2, 0}, job{c14Part{"writers2", 0}, 2, 0},
-			job{c14Part{"gone-resolve", 0}, 2, 0}, job{c14Part{"gone-refire", 1}, 1, 0})
+			job{c14Part{"gone-resolve", 0}, 2, 0}, job{c14Part{"gone-refire", 1}, 1, 0}, job{c14Part{"procs-resolveB", 8}, 2, 0})
 	}
 	if rp := rep.ReplaySpec(); rp != nil {
 		part, _ := rp["part"].(string)
